@@ -35,11 +35,11 @@ ENCODED = [
 BOUNDS = {
     "quick": "DDM/EDDM/STEPD: one step from an arbitrary state (unbounded history; STEPD window contents L<=2), integer labels vs "
              "opaque equality-only labels, with and without a container around them; ADWINAccuracy N<=6; LFR N<=3 with int / bool / "
-             "list / array encodings of 0/1; unused arguments: 14 detectors, N<=3",
+             "list / array encodings of 0/1; unused arguments: 14 detectors, N<=3; concrete label types (str, bool, float, multi-class int, numpy int / str) "
+             "under every agreement pattern of length 6 for DDM, EDDM, STEPD, ADWINAccuracy",
     "thorough": "STEPD L<=3, ADWINAccuracy N<=8, LFR N<=4, unused arguments N<=4",
 }
-OUTSIDE = ("label types whose == is not an equivalence or is element-wise in a surprising way (float NaN, numpy strings of "
-           "different width); MD3 (C19)")
+OUTSIDE = ("label types whose == is not an equivalence (float NaN); MD3 (C19)")
 ASSUMPTIONS = [
     "a re-encoding of the labels is modelled by opaque values supporting only ==/!= (uninterpreted sort): whatever the code "
     "does with a label other than comparing it would raise on them",
@@ -79,6 +79,40 @@ def body_agreement_step(ctx, det, pre, aux, container):
         A.update(yt, yp)
         B.update(_wrap(container, zt), _wrap(container, zp))
     ctx.prove(states_equal(ctx, vars(A), vars(B)), "same-agreement-same-state")
+    ctx.witness("compared")
+
+
+ENCODINGS = {
+    "str": ("cat", "dog", "bird"),
+    "bool": (True, False, True),
+    "float": (0.5, 1.5, 2.5),
+    "multiclass": (3, 7, 11),
+    "npint": (np.int64(4), np.int64(9), np.int64(2)),
+    "npstr": (np.str_("a"), np.str_("bb"), np.str_("ccc")),
+}
+
+
+def body_concrete_encodings(ctx, det, enc, container, N):
+    """agreement pattern symbolic (one fork per sample), label values concrete Python / numpy objects of the given
+    type: guards against code that dispatches on the label's type (which an opaque proxy cannot exercise)"""
+    from menelaus.concept_drift import DDM, EDDM, STEPD, ADWINAccuracy
+
+    mk = {"DDM": lambda: DDM(n_threshold=2), "EDDM": lambda: EDDM(n_threshold=2), "STEPD": lambda: STEPD(window_size=2),
+          "ADWINAccuracy": lambda: ADWINAccuracy(delta=1.0, max_buckets=2, new_sample_thresh=1, window_size_thresh=2,
+                                                 subwindow_size_thresh=1, conservative_bound=True)}[det]
+    A, B = mk(), mk()
+    vals = ENCODINGS[enc]
+    for i in range(N):
+        agree = bool(ctx.bool(f"agree{i}"))
+        a = vals[i % len(vals)]
+        b = a if agree else vals[(i + 1) % len(vals)]
+        if enc == "bool" and not agree:
+            b = not a
+        A.update(1, 1 if agree else 0)
+        B.update(_wrap(container, a), _wrap(container, b))
+        sa = {k: v for k, v in vars(A).items() if k != "_bucket_row_list"}
+        sb = {k: v for k, v in vars(B).items() if k != "_bucket_row_list"}
+        ctx.prove(states_equal(ctx, sa, sb), "concrete-encoding-same-agreement-same-state")
     ctx.witness("compared")
 
 
@@ -189,6 +223,12 @@ def jobs(tier):
             out.append(Job(f"agree-STEPD-{pre}-L{L}", "checks.c16:body_agreement_step",
                            {"det": "STEPD", "pre": pre, "aux": L, "container": "list" if L % 2 else "plain"},
                            expect=("compared",)))
+    for det in ("DDM", "EDDM", "STEPD", "ADWINAccuracy"):
+        for enc in ENCODINGS:
+            cont = {"str": "list", "bool": "plain", "float": "array", "multiclass": "plain", "npint": "list", "npstr": "plain"}[enc]
+            out.append(Job(f"encoding-{det}-{enc}", "checks.c16:body_concrete_encodings",
+                           {"det": det, "enc": enc, "container": cont, "N": 6 if q else 8}, expect=("compared",),
+                           opts={"validate": 0}))
     out.append(Job("agree-ADWINAccuracy", "checks.c16:body_adwinacc", {"N": 6 if q else 8}, expect=("compared",),
                    opts={"validate": 0}))
     for enc in ("bool", "list", "array"):
